@@ -540,12 +540,14 @@ def main() -> int:
     from .agg import run_parts
     from ..families import f_shape_core, is_extensible_case
 
-    fam = [c for c in f_shape_core() if "noc" not in c.tags]
+    from ..families import f_naming
+
+    fam = [c for c in f_shape_core() if "noc" not in c.tags] + f_naming()
     cxx_jobs = [(c, False) for c in fam] + [(c, True) for c in fam if not is_extensible_case(c)]
 
     T = list(templates())
     pairs = [(T[i], T[j]) for i in range(len(T)) for j in range(i, len(T))]
-    parts = [("c-name-templates", work_pair, pairs), ("import-target", work_import, ["c", "py"]), ("defer-nesting", work_nesting, [1, 2, 3, 4] + ([5] if tier() == "thorough" else [])), ("cxx-header", work_cxx, cxx_jobs), ("py-import", work_pyimport, f_shape_core()), ("go-static", work_gostatic, [(x, False) for x in f_shape_core()] + [(x, True) for x in f_shape_core() if not is_extensible_case(x)])]
+    parts = [("c-name-templates", work_pair, pairs), ("import-target", work_import, ["c", "py"]), ("defer-nesting", work_nesting, [1, 2, 3, 4] + ([5] if tier() == "thorough" else [])), ("cxx-header", work_cxx, cxx_jobs), ("py-import", work_pyimport, f_shape_core() + f_naming()), ("go-static", work_gostatic, [(x, False) for x in f_shape_core() + f_naming()] + [(x, True) for x in f_shape_core() + f_naming() if not is_extensible_case(x)])]
     meta = {
         "functions_encoded": FILES,
         "templates": T,
